@@ -110,7 +110,10 @@ def getitem_rules(model, R):
             R.unknown('DERIVATION-API', f, f.node, slot, 'computed differently: ' + '; '.join(src(v) for v in vals)[:160])
         guard = [s for s in f.body if isinstance(s, ast.If) and any(isinstance(b, ast.Return) for b in s.body)]
         ok = len(guard) == 1 and name_is(guard[0].test, f.params[2]) and src(env.expand(guard[0].body[0].value)) == want
-        R.check(ok, 'DERIVATION-API', f, f.node, f'{name}: raw form returned iff raw', f'if raw: return <bit set>')
+        if matches:
+            # the two forms were recognised: which of them the flag selects is a decided slot
+            R.check(ok, 'DERIVATION-API', f, f.node, f'{name}: raw form returned iff raw', f'if raw: return <bit set>',
+                    src(guard[0].test) if guard else 'no branch on the flag', strict=True)
         d = f.defaults().get(f.params[2])
         R.check(const(d, 'x') is False, 'API-DEFAULT', f, d or f.node, f'{name}: raw default False', 'False', src(d))
 
